@@ -280,6 +280,8 @@ func (ex *Exec) model(g *G, fr *Frame, fn *ssa.Function, name string, args []Val
 		return true, ex.concStr(strings.TrimSuffix(ex.cstr(args[0], name), ex.cstr(args[1], name)))
 	case "strings.TrimPrefix":
 		return true, ex.concStr(strings.TrimPrefix(ex.cstr(args[0], name), ex.cstr(args[1], name)))
+	case "strings.Trim":
+		return true, ex.concStr(strings.Trim(ex.cstr(args[0], name), ex.cstr(args[1], name)))
 	case "strings.TrimLeft":
 		return true, ex.concStr(strings.TrimLeft(ex.cstr(args[0], name), ex.cstr(args[1], name)))
 	case "strings.Repeat":
